@@ -349,9 +349,9 @@ static void run_c03p(void)
         nk = keycfgs((Cipher)c, kc);
         for (ki = 0; ki < nk; ++ki) for (be = 0; be <= cipher_max_be((Cipher)c); ++be, ++job) {
             int P = par_batch((Cipher)c, be) / bs;
-            int counts[8], ncounts = 0;
+            int counts[12], ncounts = 0;
             if (job % g_opts.nshards != g_opts.shard) continue;
-            counts[ncounts++] = 1; counts[ncounts++] = P - 1; counts[ncounts++] = P; counts[ncounts++] = P + 1; counts[ncounts++] = 2 * P + 1;
+            counts[ncounts++] = 1; counts[ncounts++] = P - 1; counts[ncounts++] = P; counts[ncounts++] = P + 1; counts[ncounts++] = 2 * P + 1; counts[ncounts++] = P + P / 2 + 1;
             if (tier_thorough()) { counts[ncounts++] = 2; counts[ncounts++] = 3 * P; counts[ncounts++] = 3 * P + 1; }
             kdesc(&kc[ki], kd, sizeof(kd));
             for (ci = 0; ci < ncounts; ++ci) for (fam = 0; fam < 4; ++fam) {
@@ -369,6 +369,17 @@ static void run_c03p(void)
                     par_set_key((Cipher)c, &d, KEYS[kc[ki].ki], (unsigned)kc[ki].klen, (unsigned)kc[ki].rounds, MANTIS_DECRYPT);
                     if (order == 0) { r1 = par_crypt((Cipher)c, &e, tmp_, in_, tw_, n, 0); r2 = par_crypt((Cipher)c, &d, out_[0], tmp_, tw_, n, 1); }
                     else            { r1 = par_crypt((Cipher)c, &d, tmp_, in_, tw_, n, 1); r2 = par_crypt((Cipher)c, &e, out_[0], tmp_, tw_, n, 0); }
+                    {   /* the same round trip in place (output == input), as the documentation allows */
+                        int q1, q2;
+                        memcpy(out_[2], in_, n);
+                        q1 = par_crypt((Cipher)c, order ? &d : &e, out_[2], out_[2], tw_, n, order);
+                        q2 = par_crypt((Cipher)c, order ? &e : &d, out_[2], out_[2], tw_, n, !order);
+                        ++g_cnt.evaluations;
+                        if (q1 != 1 || q2 != 1 || memcmp(out_[2], in_, n) != 0) {
+                            snprintf(sig, sizeof(sig), "C03/par/%s/%s/%s-in-place", cipher_name((Cipher)c), be_name(be), order ? "E(D(y))" : "D(E(x))");
+                            violation(sig, cd, "%s on %s, %d blocks: in-place round trip failed (returns %d,%d)", kd, be_name(be), counts[ci], q1, q2);
+                        }
+                    }
                     if (memcmp(tmp_, in_, n) != 0) distinct_add_u64(fnv1a(tmp_, n, fnv1a(cd, strlen(cd), 3)));
                     if (r1 != 1 || r2 != 1 || memcmp(out_[0], in_, n) != 0) {
                         snprintf(sig, sizeof(sig), "C03/par/%s/%s/%s", cipher_name((Cipher)c), be_name(be), order ? "E(D(y))" : "D(E(x))");
